@@ -91,6 +91,7 @@ def main():
     finally:
         sh(["git", "-C", "/repo", "worktree", "remove", "--force", wt])
         shutil.rmtree(wt, ignore_errors=True)
+        subprocess.run(["python3", os.path.join(ROOT, "tools", "cleanwork.py")], stdout=subprocess.DEVNULL)
     valid = report.get("build_ok") and report.get("suite_ok", True) and report.get("demo_without_patch", {}).get("rc") == 0 and report.get("demo_with_patch", {}).get("rc") not in (0, None)
     report["valid_seed"] = bool(valid)
     dst = os.path.join(ROOT, "seeded", name)
